@@ -145,8 +145,10 @@ macro_rules! drive_state {
                     let v = next_val;
                     next_val += 1;
                     sets.push(v);
+                    // any clone may be the one that publishes (they share the channel)
+                    let which = (v as usize) % states.len();
                     {
-                        let fut = states[0].set(v);
+                        let fut = states[which].set(v);
                         let mut fut = std::pin::pin!(fut);
                         let mut cx = Context::from_waker(&noop);
                         let mut done = false;
@@ -162,8 +164,8 @@ macro_rules! drive_state {
                     }
                     // every state clone reports the value of the clone it was set on only; get()
                     // on states[0] must be the new value
-                    if states[0].get() != v && fail.is_none() {
-                        fail = Some(("C20/get-not-latest".into(), format!("{name}: get() = {} after set({v})", states[0].get())));
+                    if states[which].get() != v && fail.is_none() {
+                        fail = Some(("C20/get-not-latest".into(), format!("{name}: get() = {} after set({v})", states[which].get())));
                     }
                     // lost wake-up detector
                     for (i, s) in subs.iter().enumerate() {
